@@ -826,9 +826,30 @@ pub fn check_c12(c: &ContCase, acc: &mut Acc, record: bool) -> Verdict {
         }
     }
     let expected = as_container_val(c.dst, &written);
-    // the same bytes met as a field of a record (in the record's only chunk, or in a chunk of their own)
+    // the same bytes met as a field of a record (in the record's only chunk, or in a chunk of their own); in the
+    // writer's own form the record is also WRITTEN by the real writer, with the source container as its field
     let (dty, bytes, expected) = if c.holder % 3 != 0 {
-        let (hty, hbytes) = held(c.holder % 3, &dty, &bytes);
+        let (hty, mut hbytes) = held(c.holder % 3, &dty, &bytes);
+        let mut written = written;
+        if c.form == Form::Known {
+            let (hsty, _) = held(c.holder % 3, &sty, &[]);
+            let (enc, aw) = vcat::encode(&hsty, &Val::Rec(vec![Val::Int(0x1234), sval.clone(), Val::str("q")]));
+            let b = match enc {
+                Ok(b) => b,
+                Err(e) => return Verdict::Fail(format!("encoding a record that holds {} failed: {e:?}", sty.render())),
+            };
+            // a hash container iterates in an order of its own per instance: there the record's bytes stand for
+            // themselves (and say what was written); everywhere else they must be the hand layout
+            if sty.any(&|t| matches!(t, Ty::HashSet(_) | Ty::HashMap(..))) {
+                if let Val::Rec(fs) = &aw {
+                    written = as_pair_list(&fs[1]);
+                }
+            } else if b != hbytes {
+                return Verdict::Fail(format!("{} written as a field of a record ({} chunk) gives {} bytes where the layout of header and chunks around its stand-alone encoding gives {} (first difference at {:?})", sty.render(), if c.holder % 3 == 2 { "its own" } else { "the only" }, b.len(), hbytes.len(), b.iter().zip(&hbytes).position(|(x, y)| x != y)));
+            }
+            hbytes = b;
+        }
+        let expected = as_container_val(c.dst, &written);
         if record {
             acc.bump(if c.holder % 3 == 1 { "targets_met_as_field_of_a_version_0_record" } else { "targets_met_in_a_chunk_of_their_own" }, 1);
         }
